@@ -13,6 +13,8 @@ pub mod c10;
 pub mod c11;
 pub mod c13;
 pub mod c16;
+pub mod c18;
+pub mod c19;
 pub mod c20;
 pub mod probe;
 pub mod probe2;
@@ -34,6 +36,8 @@ pub fn run(engine: &str, ctx: &Ctx) -> Option<Report> {
         "probe" => probe::run(ctx, &mut rep),
         "c13" => c13::run(ctx, &mut rep),
         "c16" => c16::run(ctx, &mut rep),
+        "c18" => c18::run(ctx, &mut rep),
+        "c19" => c19::run(ctx, &mut rep),
         "c20" => c20::run(ctx, &mut rep),
         _ => return None,
     }
